@@ -26,6 +26,75 @@ class Printer:
         self.consts = {}     # 'true'/'false' -> text
 
 
+def _fold_collect_loop(tp, outs):
+    """Two paths that differ only in whether one collecting loop ran
+    (`xs = []; for c in self.children: xs.append(f(c))`, then a text built
+    from xs): the printer's text is that of the comprehension
+    `f(c) for c in self.children` in place of xs.  Returns (path, value)."""
+    from ..pathutil import contents
+    loops = [[c for c in p.conds if c.kind == 'loop'] for p in outs]
+    if any(len(lc) != 1 for lc in loops) or any(
+            len([c for c in p.conds if c.kind != 'loop']) for p in outs):
+        return None
+    if {lc[0].pol for lc in loops} != {True, False} or U(
+            loops[0][0].expr) != U(loops[1][0].expr):
+        return None
+    p1 = outs[0] if loops[0][0].pol else outs[1]
+    p0 = outs[1] if p1 is outs[0] else outs[0]
+    import copy as _copy
+
+    def unfold(e, depth=6):
+        """value symbols replaced by their definitions; collections and
+        loop elements stay symbols"""
+        class X(ast.NodeTransformer):
+            def visit_Name(self, n):
+                d = tp.en.defs.get(n.id)
+                if n.id.startswith('SYM_v') and isinstance(d, ast.AST) \
+                        and depth > 0:
+                    return unfold(d, depth - 1)
+                return n
+        return X().visit(_copy.deepcopy(e))
+    e0, e1 = unfold(p0.outcome.expr), unfold(p1.outcome.expr)
+    if U(e0) != U(e1):
+        return None             # the same text is built either way
+    cont, opaque = contents(p1)
+    syms = [n.id for n in ast.walk(e1)
+            if isinstance(n, ast.Name) and n.id in cont]
+    if len(set(syms)) != 1 or syms[0] in opaque:
+        return None
+    acc = syms[0]
+    items = cont[acc]
+    d = tp.en.defs.get(acc)
+    if len(items) != 1 or isinstance(items[0], tuple) or not (
+            isinstance(d, ast.List) and not d.elts):
+        return None
+    it = loops[0][0].expr
+    elem = [s_ for s_, dd in tp.en.defs.items() if isinstance(dd, tuple)
+            and dd and dd[0] == 'elem' and dd[1] is (
+                loops[0][0].expr if loops[0][0].pol else loops[1][0].expr)]
+    if len(elem) != 1:
+        return None
+
+    class R(ast.NodeTransformer):
+        def visit_Name(self, n):
+            if n.id == elem[0]:
+                return ast.copy_location(ast.Name(id='_c', ctx=ast.Load()), n)
+            return n
+    gen = ast.GeneratorExp(
+        elt=R().visit(unfold(items[0])),
+        generators=[ast.comprehension(
+            target=ast.Name(id='_c', ctx=ast.Store()), iter=it, ifs=[],
+            is_async=0)])
+
+    class S(ast.NodeTransformer):
+        def visit_Name(self, n):
+            if n.id == acc:
+                return gen
+            return n
+    val = S().visit(e1)
+    return p1, ast.fix_missing_locations(val)
+
+
 def extract_printers(ctx, classes):
     prog = ctx.prog
     pr = Printer()
@@ -42,7 +111,14 @@ def extract_printers(ctx, classes):
             self_cls=q)
         outs = [p for p in tp.paths if p.outcome.kind == 'return'
                 and p.outcome.expr is not None]
-        if len(outs) != 1 or len(tp.paths) != 1:
+        folded = _fold_collect_loop(tp, outs) if len(outs) == 2 and len(
+            tp.paths) == 2 else None
+        if folded is not None:
+            outs = [folded[0]]
+            tp_value = folded[1]
+        else:
+            tp_value = None
+        if len(outs) != 1 or (len(tp.paths) != 1 and folded is None):
             # a printer whose text depends on conditions: every variant must
             # be the verbatim form, which the single-path case establishes
             texts = set()
@@ -60,7 +136,8 @@ def extract_printers(ctx, classes):
                    'parse back to a different check' % (
                        short, ' | '.join(sorted(texts))[:160]))
             raise AnalysisError('%s has no single return' % f.qual)
-        value = tp.expand(outs[0].outcome.expr)
+        value = tp_value if tp_value is not None else tp.expand(
+            outs[0].outcome.expr)
         ret = ast.Pass()
         ret.lineno = ret.end_lineno = outs[0].outcome.line
         ret.col_offset = ret.end_col_offset = 0
@@ -405,6 +482,25 @@ def check_dump(ctx):
                     f.module, e.func) or '').endswith(('jsonutils.dumps',
                                                        'json.dumps')):
                 ser_ok = True
+    if not true_ok:
+        # every name pre-seeded with '' (dict.fromkeys(self, '')) and the
+        # always-allow entries left as they are
+        seeded = {s_ for s_, d in t.en.defs.items() if isinstance(d, ast.Call)
+                  and U(d.func) == 'dict.fromkeys' and len(d.args) == 2
+                  and U(d.args[0]) in ('self', 'self.keys()')
+                  and is_const(d.args[1], '')}
+        for p in t.paths:
+            pos = [c for c in p.conds if c.kind == 'test' and c.pol
+                   and isinstance(c.expr, ast.Call) and U(
+                       c.expr.func) == 'isinstance' and prog.resolve(
+                           f.module, c.expr.args[1]) == CHECKS + '.TrueCheck']
+            if pos and seeded and not any(
+                    e.kind == 'store' and isinstance(e.node, ast.Subscript)
+                    and U(e.node.value) in seeded for e in p.events) \
+                    and not any(e.kind == 'call' and method_call(e.node)
+                                and U(method_call(e.node)[0]) in seeded
+                                for e in p.events):
+                true_ok = True
     ctx.ob('C15.DUMP', true_ok, W, f.qual, "always-allow -> ''",
            'an always-allow rule is dumped as the empty string, which '
            'loads back to always-allow' if true_ok else
